@@ -59,6 +59,34 @@ Theorem C08_pcmp_rel :
 Proof. exact pcmp_spec. Qed.
 Print Assumptions C08_pcmp_rel.
 
+(* Since repo commit c041ccb5709 merge / partial_cmp / == skip children without rows.  So the
+   three statements hold for ALL weakly well-formed tries (wfw: distinct child keys, rows below
+   child k carry k, leaves are sets -- children may be EMPTY, as left by get_mut + drain, COLT
+   get, or a deep join): two tries with the same rows are == and compare Equal whatever empty
+   children they carry, and merge reports exactly "the row set grew". *)
+Theorem C08_pcmp_any_children :
+  forall h d a b, wfw h d a -> wfw h d b -> cmp_rel (riter h a) (riter h b) (pcmp h a b).
+Proof. exact pcmp_spec_w. Qed.
+Print Assumptions C08_pcmp_any_children.
+
+Theorem C08_eq_any_children :
+  forall h d a b, wfw h d a -> wfw h d b ->
+    (peq h a b = true <-> incl (riter h a) (riter h b) /\ incl (riter h b) (riter h a)).
+Proof. exact peq_spec_w. Qed.
+Print Assumptions C08_eq_any_children.
+
+Theorem C08_merge_any_children :
+  forall h d a b, wfw h d a -> wfw h d b ->
+    wfw h d (fst (merge h a b)) /\
+    (forall x, In x (riter h (fst (merge h a b))) <-> In x (riter h a) \/ In x (riter h b)) /\
+    snd (merge h a b) = negb (subset_b (riter h b) (riter h a)).
+Proof. exact merge_spec_w. Qed.
+Print Assumptions C08_merge_any_children.
+
+Theorem C08_wf_is_weak : forall h d t, wf h d t -> wfw h d t.
+Proof. exact wf_wfw. Qed.
+Print Assumptions C08_wf_is_weak.
+
 Theorem C08_eq :
   forall h d a b, wf h d a -> wf h d b ->
     (peq h a b = true <-> incl (riter h a) (riter h b) /\ incl (riter h b) (riter h a)).
@@ -158,7 +186,7 @@ Theorem C08_multiset_force_drain :
 Proof. intros k a m p. exact (@sforce_drain_cnt k a m p). Qed.
 Print Assumptions C08_multiset_force_drain.
 
-(* ---- recorded findings *)
+(* ---- former findings *)
 (* FORMER FINDING, fixed in /repo by beb89003dcf: the derived PartialEq of GhtLeaf compared the
    COLT flag `forced` (former theorem C08_forced_eq_refuted, witness PGHT2.forced_ops =
    insert (1,1); force_drain; partial_cmp; ==).  corpus/C08/forced_flag_eq.json is re-checked
@@ -168,17 +196,17 @@ Example C08_former_forced_witness :
   xspec_run KSet 0 forced_ops = [XABool true; XAOptRows (Some [[1; 1]%N]); XACmp (PSome Eq); XABool true].
 Proof. exact forced_eq_now_agrees. Qed.
 
-(* an emptied child stays in GhtInner::children and counts as content (outside `wf`) *)
-Theorem C08_empty_child_refuted :
-  exists ops, ops = empty_child_ops /\
-    xmodel_run KSet 2 1 ops =
-      [XABool true; XAOptRows (Some [[1; 10]%N]); XARows []; XABool true; XACmp (PSome Gt);
-       XABool false; XABool true] /\
-    xspec_run KSet 1 ops =
-      [XABool true; XAOptRows (Some [[1; 10]%N]); XARows []; XABool true; XACmp (PSome Eq);
-       XABool true; XABool false].
-Proof. exact empty_child_refuted. Qed.
-Print Assumptions C08_empty_child_refuted.
+(* FORMER FINDING, fixed in /repo by c041ccb5709: an emptied child stayed in GhtInner::children
+   and counted as content (former theorem C08_empty_child_refuted, witness PGHT2.empty_child_ops =
+   insert (1,10); get_mut(1).drain(); iter; is_bot; partial_cmp; ==; merge into the empty trie).
+   corpus/C08/empty_child_cmp.json is re-checked first on every run; on the fixed code and model
+   the answers are the specified ones (positive general statements: C08_*_any_children above): *)
+Example C08_former_empty_child_witness :
+  xmodel_run KSet 2 1 empty_child_ops = xspec_run KSet 1 empty_child_ops /\
+  xspec_run KSet 1 empty_child_ops =
+    [XABool true; XAOptRows (Some [[1; 10]%N]); XARows []; XABool true; XACmp (PSome Eq);
+     XABool true; XABool false].
+Proof. exact empty_child_now_agrees. Qed.
 
 (* ---- non-vacuity *)
 Example C08_ex_good :
